@@ -6,7 +6,10 @@ only if the commit is the merging delegate's default-branch head or an ancestor 
 it; the state becomes Merged only when exactly one (revision, commit) group of the
 recorded merges passed `count >= identity.threshold()`; lifecycle actions change
 the state only from Draft / Archived / Open-without-conflicts (never from Merged);
-only Patch::action constructs State::Merged."""
+only Patch::action constructs State::Merged. 
+The head a merged commit is checked against comes only from the merging delegate's
+own default branch (no fallback to the canonical HEAD); when no group reaches the
+threshold any more a Merged state does not stand (it is reset to Open)."""
 import re
 
 from .. import cfg, rules, flow, table
